@@ -23,6 +23,7 @@ Status on the current tree:
     "every pair's qubit id is 0" for the `setZero` variant, and `f14_counterexample` (n = 2) is proved.
 -/
 import NetqasmVerif.Lemmas.BellLoopSpec
+import NetqasmVerif.Lemmas.BellAlloc
 import NetqasmVerif.Props.BellObligations
 namespace NQ.C10
 open NQ NQ.Bell NQ.BellObl
@@ -123,7 +124,7 @@ theorem expect_off (d : Data) (c : Config) (code : List Cmd) (he : c.expect = fa
             obtain ⟨l4, u12⟩ := p3
             simp only [h1, h2, h3, Option.some.injEq] at h
             subst h
-            simp only [List.all_append, ht, Bool.and_true, Bool.true_and]
+            simp only [List.all_append, ht, Bool.and_true]
             simp [Cmd.isRot, waitBlockCode]
   unfold emit at h
   split at h
@@ -300,5 +301,75 @@ theorem move_path_ids (c : Config) (hk : c.api = "keep") (hnv : c.nv = true) (hs
   intro id h
   simp [idsInit, hk, hnv] at h
   exact h.2.symm
+
+/-! ## (e) the same, for everything the builder model can emit (no side conditions left) -/
+
+/-- **Wait-all path, emitted code.** For EVERY configuration (active registers, labels already
+used, array addresses, number of pairs) in which corrections are expected, what the model of
+`recv_keep` / `recv_rsp` emits is `recv_epr; wait_all; loop`, and `loop` — run for any Bell tuple and
+any qubit-id array of that many pairs — terminates and applies pair i's rotations to
+`d.tWaitAll.pick (ids[i])` for i = 0 … n−1, nothing else. Freshness of the allocated registers and
+labels is proved, not assumed. -/
+theorem emitted_waitall_addressing (d : Data) (c : Config) (code : List Cmd) (he : c.expect = true)
+    (h : emitWaitAll d c = some code) (mem : Mem) (idv resv bvs : List Int) (hn : bvs.length = c.n)
+    (hmi : mem c.ids = some idv) (hmr : mem c.res = some resv) (hlen : idv.length = bvs.length)
+    (hres : ResultsHold d.ly resv bvs) (regs : Nat → Int) :
+    ∃ loop, code = [ .recvEpr c.remote c.sock (some c.ids) c.res, .waitAllImm c.res 0 (d.ly.len * c.n) ] ++ loop ∧
+      ∃ regs', Reaches loop mem ⟨0, regs, []⟩ ⟨loop.length, regs', pairEvents d.sp d.tWaitAll (bvs.zip idv)⟩ := by
+  obtain ⟨q, b, L, I, J, lb, hd, hl, hc⟩ := emitWaitAll_shape he h
+  refine ⟨_, hc, ?_⟩
+  rw [← hn]
+  exact waitall_loop_runs d.tWaitAll d.ly d.sp q b L I J lb c.ids c.res mem hd hl idv resv bvs hmi hmr hlen hres regs
+
+/-- **Post-routine / sequential and move-to-memory paths, emitted code.** For EVERY configuration
+with corrections expected, the emitted per-pair loop contains the correction block `blk`
+(`code = pre ++ blk ++ post`), and in iteration `i` (pair register `L = i`) the block applies exactly
+the rotations of pair i's Bell value to `t.pick (ids[i])`, `t` being the generated target of that path,
+keeps `L` and falls through. -/
+theorem emitted_block_addressing (d : Data) (c : Config) (mv : Bool) (code : List Cmd)
+    (he : c.expect = true) (h : emitSeq d c mv = some code) :
+    ∃ (L : Nat) (pre blk post : List Cmd), code = pre ++ blk ++ post ∧
+      ∀ (mem : Mem) (idv resv : List Int), mem c.ids = some idv → mem c.res = some resv →
+      ∀ (i : Nat) (id bv : Int) (k : Nat), idv[i]? = some id →
+        d.ly.idxBell + d.ly.len * (i : Int) = (k : Int) → resv[k]? = some bv →
+      ∀ (regs : Nat → Int) (tr : List Ev), regs L = (i : Int) →
+        ∃ regs', Reaches blk mem ⟨0, regs, tr⟩
+          ⟨blk.length, regs', tr ++ corrEvents d.sp bv ((if mv then d.tMove else d.tPost).pick id)⟩ ∧
+          regs' L = (i : Int) := by
+  unfold emitSeq at h
+  cases h0 : allocSeq c.act c.labels with
+  | none => simp [h0] at h
+  | some p0 =>
+    obtain ⟨a, u4⟩ := p0
+    cases h1 : seqCorr d c mv a u4 with
+    | none => simp [h0, h1] at h
+    | some p1 =>
+      obtain ⟨corrCmds, u9⟩ := p1
+      cases h2 : seqTail c mv a u9 with
+      | none => simp [h0, h1, h2] at h
+      | some p2 =>
+        obtain ⟨tailCmds, u10⟩ := p2
+        cases h3 : newLabel u10 "LOOP" with
+        | none => simp [h0, h1, h2, h3] at h
+        | some p3 =>
+          cases h4 : newLabel p3.2 "LOOP_EXIT" with
+          | none => simp [h0, h1, h2, h3, h4] at h
+          | some p4 =>
+            simp only [h0, h1, h2, h3, h4, Option.some.injEq] at h
+            obtain ⟨I, J, l1, l2, x1, x2, x3, hd, hl, hb⟩ := seqCorr_shape h0 rfl he h1
+            refine ⟨a.L, [ .recvEpr c.remote c.sock (some c.ids) c.res, .set a.L 0, .label p3.1,
+                  .beq (.r a.L) (.imm c.n) p4.1 ] ++
+                waitBlockCode d.ly a.L a.s a.t a.e a.J a.a1 a.a2 a.b1 a.b2 c.res, corrCmds,
+              tailCmds ++ [ .add a.L a.L (.imm 1), .jmp p3.1, .label p4.1 ], ?_, ?_⟩
+            · rw [← h]; simp only [List.append_assoc]
+            · intro mem idv resv hmi hmr i id bv k hid hk hbv regs tr hL
+              subst hb
+              exact block_applies_correction _ d.ly d.sp a.q a.b a.L I J l1 l2 x1 x2 x3 c.ids c.res mem hd hl
+                idv resv hmi hmr i id bv k hid hk hbv regs tr hL
+
+/-- non-vacuity: configurations for which the two theorems above have a model emission -/
+example : (emitWaitAll Gen.data ⟨"keep", false, false, 3, true, [0, 2], ["LOOP", "IF_EXIT"], 2, 3, 1, 0⟩).isSome = true
+    ∧ (emitSeq Gen.data ⟨"keep", false, true, 3, true, [0, 2], ["LOOP", "IF_EXIT"], 2, 3, 1, 0⟩ false).isSome = true
+    ∧ (emitSeq Gen.data ⟨"keep", true, false, 3, true, [], [], 0, 1, 1, 0⟩ true).isSome = true := by decide
 
 end NQ.C10
